@@ -94,6 +94,15 @@ def run(tier):
             mods = [("main.pn", main_), ("lib.pn", lib)]
             if order: mods.reverse()
             marked.append(("om%d.%d" % (mi, order), "known-offender:" + code, "".join("//// module %s\n%s" % m for m in mods)))
+    # the SECOND operator of a chain is the offender (the third operand has another type): the diagnostic sits on
+    # the operator's own line, not on the operand before it
+    for ci, op in enumerate(["|", "&", "^", "+", "-", "*", "/", "%"]):
+        for third, code in (("c", "551"),):
+            body = "\tvar a: u8 = 1;\n\tvar b: u8 = 2;\n\tvar c: u16 = 3;\n\tvar x: u8 = a %s b\n\t\t%s %s; // HERE\n" % (op, op, third)
+            marked.append(("oc%d" % ci, "known-offender:" + code, "fn main()\n{\n" + body + "}\n"))
+        # three operators, the last one offends
+        body = "\tvar a: i32 = 1;\n\tvar b: i32 = 2;\n\tvar c: i64 = 3;\n\tvar x: i32 = a %s b\n\t\t%s a\n\t\t%s c; // HERE\n" % (op, op, op)
+        marked.append(("od%d" % ci, "known-offender:551", "fn main()\n{\n" + body + "}\n"))
     # the returned value is the offender (E333: the value does not have the declared return type)
     marked.append(("orv", "known-offender:333", "fn foo() -> i32\n{\n\tvar x: bool = true;\n\treturn: x // HERE\n}\nfn main()\n{\n}\n"))
     marked.append(("orv2", "known-offender:333", "fn foo(a: i32) -> bool\n{\n\tif a == 1\n\t{\n\t\ta = 2;\n\t}\n\treturn: a // HERE\n\n\n}\nfn main()\n{\n}\n"))
@@ -116,7 +125,13 @@ def run(tier):
     for li, sep in enumerate(["\x0b", "\x0c", "\u0085", "\u2028", "\u2029", "\r"]):
         for where in ("// a%sb\n", "\tvar s = \"a%sb\";\n"):
             edges.append(("l%d.%d" % (li, len(where)), "odd-line-separator", "fn main() -> i32\n{\n" + (where % sep) + "\tvar x = nowhere;\n\treturn: 0\n}\n"))
-    allc = cases + known + multi + marked + edges
+    # programs that are ACCEPTED and raise every lint there is (L1142, L1800; in one program, in several, after
+    # one another): lints are rendered like errors, under their published tag `[L<code>] Warning:`
+    L1800 = "fn main() -> i32\n{\n\tvar x = 33;\n\tvar i = 1;\n\t{\n\t\tx = x * i;\n\t\ti = i + 1;\n\t\tif i != 10\n\t\t{\n\t\t\tloop;\n\t\t}\n\t}\n%s\tx = x + 1;\n\treturn: x\n}\n"
+    lints = [("lint0", "lint", L1800 % ""), ("lint1", "lint", L1800 % "\tvar t: u8 = 300;\n"), ("lint2", "lint", "fn main()\n{\n\tvar t: u8 = 300;\n\tvar u: i8 = -129;\n\tvar w: u16 = 0x10000;\n}\n"),
+             ("lint3", "lint", "fn f(c: bool)\n{\n\tif c\n\t{\n\t\tloop;\n\t}\n\telse\n\t{\n\t\tloop;\n\t}\n}\nfn main()\n{\n\tf(false);\n}\n"),
+             ("lint4", "lint", "//// module lib.pn\npub fn g(c: bool) -> u8\n{\n\tif c\n\t{\n\t\tloop;\n\t}\n\treturn: 256\n}\n//// module main.pn\nimport \"lib.pn\";\nfn main()\n{\n\tvar r = g(false);\n\tvar big: i16 = 40000;\n}\n")]
+    allc = cases + known + multi + marked + edges + lints
     impl = C.run_harness("diag", [(c[0], c[2]) for c in allc], ck.work + "/diag", timeout=1800)
     stats = collections.Counter(); codes_seen = collections.Counter(); bad = 0
     for cid, kind, src in allc:
